@@ -98,7 +98,7 @@ class C09(Plugin):
                             if list(k) in [a[0] for a in attrs] or k == (None, "style"):
                                 continue
                             if k[1].lower() in ("href", "src", "base", "action", "formaction", "poster"):
-                                v = rng.choice(SCHEMES) + ":" + rng.choice(RESTS)
+                                v = rng.choice(SCHEMES + ["data", "data", "Data"]) + ":" + rng.choice(RESTS)
                             elif k[1] in ("fill", "mask"):
                                 v = rng.choice(REFS)
                             else:
@@ -211,6 +211,13 @@ class C09(Plugin):
                             sch = browser_scheme(val)
                             if sch is not None and sch not in protos:
                                 v.append(("forbidden-scheme-kept", repr((val, sch))))
+                            if sch == "data":
+                                cts = set(ls[3]) if ls else S.allowed_content_types
+                                vv = val.strip("".join(chr(c) for c in range(0x21))).replace("\t", "").replace("\n", "").replace("\r", "")
+                                m = re.match(r"(?i)data:([^,;]*)", vv)
+                                ct = m.group(1).strip().lower() if m else ""
+                                if ct not in cts:
+                                    v.append(("forbidden-data-content-type-kept", repr((val, ct))))
         return v
 
     def nontrivial_key(self, case, out):
